@@ -32,6 +32,12 @@ class Sut:
         if self.p is not None:
             try:
                 self.p.stdin.close()
+                if os.environ.get('LLVM_PROFILE_FILE'):
+                    # (selftest/coverage.sh: let the adapter leave by itself, so that it writes its execution counts)
+                    try:
+                        self.p.wait(timeout=10)
+                    except Exception:
+                        pass
                 self.p.kill()
                 self.p.wait()
             except Exception:
